@@ -32,6 +32,13 @@ int main(int argc, char** argv) {
              "distinct = FNV of case + returned wake; trivial = impedance bin above N/2 (must give exactly zero)";
     R.sample_every = 4000;
     auto cfgs = configs(true);
+    if (R.thorough()) {      // thorough: longer transforms (power of two, composite, prime), larger grids, four and five buckets
+        for (unsigned n : {16u, 24u, 32u}) for (unsigned N : {257u, 384u, 512u}) for (auto bs : std::vector<std::vector<uint32_t>>{{0}, {3, 1, 0}, {4, 3, 1, 0}, {0, 1, 2, 3, 5}}) {
+            unsigned mx = 0; for (auto b : bs) mx = std::max(mx, b);
+            const unsigned spacing = n + 5; if (mx * spacing + n > N) continue;
+            cfgs.push_back(Cfg{n, (unsigned)bs.size(), N, mx ? spacing : n, bs});
+        }
+    }
     if (R.warm) { std::set<unsigned> seen; for (auto& c : cfgs) if (seen.insert(c.N).second) { Rig r(c); r.f->wakePotential(); } return 0; }
     double worst = 0;
     for (auto& c : cfgs) {
